@@ -12,7 +12,7 @@ CLAIMS = {
   ref="DESIGN.md 5 C15"),
  'C17': dict(
   text="Deductive proof, per method: for each of the 12 public instance methods a contract variant with precondition 'this builder's function has finished' is verified: the only outcomes are RuntimeError (or TypeError for an ill-typed argument checked first), with empty effect trace, no callback and no change to any pre-existing object (frame obligations); _assert_not_finished and _append_suboperation are verified against exact contracts (append happens iff not finished, under the owner's lock: lockset obligation).",
-  note="Sequential semantics: the racing clause (straggler thread between its check and its append) is not decided. Z2 (is_finished set on every exit of the code that ran the callback) is verified only for build_versioned's finally so far.",
+  note="Sequential semantics: of the racing clause (straggler thread between its check and its append) only the structural half is proved -- every result or OSError of _exec_simple_operation, subbuild and build_file_with_comparison leaves through _append_suboperation's re-check under the lock (marker ghost fence_n); the interleaving argument is not machine-checked. Z2 (is_finished set on every exit of the code that ran the callback) is verified only for build_versioned's finally so far.",
   ref="DESIGN.md 5 C17"),
  'C11': dict(
   text="Deductive proof of ownership (region) obligations at every value-carrying API edge, on all paths: values returned by build_file_with_comparison, subbuild and _exec_simple_operation (all query methods) are fresh copies (provenance flag of the interpreter: created by copy.deepcopy/JsonUtil.sanitize after entry, or provably an immutable atom); every JSON argument handed to a user function in _rebuild_file and _subbuild is a fresh copy (obligation at the callback call site); JsonUtil.sanitize's result shares no mutable structure with its argument; arguments stored in records are sanitize results.",
@@ -20,31 +20,31 @@ CLAIMS = {
   ref="DESIGN.md 5 C11"),
  'C03': dict(
   text="Deductive proof of one ghost-precondition (guard) obligation per destructive call site, on all paths: every os.remove / os.rmdir / os.rename(via back_up_and_remove) / rmtree / cache write reached in clean, _commit, _roll_back, _rebuild_file (failed target), _make_dirs, _make_room, _build_file, _build and build_versioned carries the statement's condition (only outputs recorded by the previous build, targets of this build or the cache file are removed or moved; only directories recorded as created by this or the previous build are rmdir'ed; rmtree only on the mkdtemp result; only the cache file is written); a destructive primitive reached at a site without a guard is itself a failing obligation.",
-  note="FileBackups' own rename/replace/makedirs/rmtree and BuildDirs' scan are trusted contracts backed by bounded stand-ins (listed in the evidence); OS axioms of pyvc/libfs.py (rmdir succeeds only on empty directories; no symlinks); user functions write only their target (hypothesis of the statement).",
+  note="FileBackups.back_up_and_remove/restore_all are verified (moves only into the backup directory, restores only recorded backups to their origin; that a backup path is not yet in use is the bounded stand-in file_backups); BuildDirs' scan is a trusted contract backed by the bounded stand-in dir_scan; OS axioms of pyvc/libfs.py (rmdir succeeds only on empty directories; no symlinks); user functions write only their target (hypothesis of the statement).",
   ref="DESIGN.md 5 C03"),
  'C12': dict(
-  text="Deductive proof for clean, on all paths: any exception leaves the effect trace empty; removals only of files recorded as created in the cache read from the cache file, plus the cache file; rmdir only of recorded created directories, after validation of the build name; the recorded created-directory set is exactly BuildDirs' created map plus the directories made for the cache file (_set_created_dirs, Cache.add_created_dirs, BuildDirs.created_dirs verified).",
-  note="Not decided: that every recorded file is attempted (coverage), idempotence as a theorem, and that BuildDirs' created map equals what a from-scratch build would create (needs C01's composition; BuildDirs reservation machine is a trusted contract with a bounded stand-in).",
+  text="Deductive proof for clean, on all paths: any exception leaves the effect trace empty; removals only of files recorded as created in the cache read from the cache file, plus the cache file; rmdir only of recorded created directories, after validation of the build name; the recorded created-directory set is exactly BuildDirs' created map plus the directories made for the cache file (_set_created_dirs, Cache.add_created_dirs, BuildDirs.created_dirs verified); coverage: at every normal exit each recorded output and the cache file is no regular file any more or had its removal attempted, each recorded directory had its rmdir attempted and is gone, still not empty (logged witness) or was refused by the OS; Cache.write hands every root record to the serialiser.",
+  note="Not decided: idempotence as a theorem, and that BuildDirs' created map equals what a from-scratch build would create (needs C01's composition; BuildDirs reservation machine is a trusted contract with a bounded stand-in).",
   ref="DESIGN.md 5 C12"),
  'C02': dict(
   text="Deductive proof over _build, _roll_back and the backup call sites, on all paths: every Exception leaving the try block of _build (directory set-up, root function, bookkeeping, cache write) closes the builder, runs _roll_back (backups consumed) and re-raises; _roll_back cannot raise (no exceptional path) and only removes files built by this build and directories made by this build, recreates only directories recorded by the previous build; every move-aside is of the cache file, an old output or the call's own target (backed up before destroyed); the cache file is rewritten only after the root function returned and the old one was moved aside; post-rollback tree (R4) as necessary conditions: the cache records which files this build built (Cache._built_files: start_building_file adds, __init__ starts empty), the rollback loop invariant 'every registered file that is not a reused result of the previous build is no regular file any more or had its removal attempted', restore_all is called only while no backed-up position was turned into a directory by the rollback, and _roll_back is called only when a cache file opened by this build is gone / had its removal attempted / will be overwritten by the backed-up previous one (three defects found by these obligations were repaired: 074b760, 7d6a9dc, ba05d4b).",
   note="Not decided: the post-rollback tree as one equality theorem (what restore_all puts back is a trusted contract); BaseException other than Exception is outside the statement.",
   ref="DESIGN.md 5 C02"),
  'C06': dict(
-  text="Deductive proof that a function is skipped only if its version is unchanged, for all record trees: the ghost predicate versions_ok (own version JSON-equal and versions_ok of every complex suboperation, least fixpoint) is implied by a True result of _is_build_file_operation_cached / _is_subbuild_operation_cached, by every hit of _build_file_cache_lookup / _subbuild_cache_lookup, by the loop invariant of _are_suboperations_cached, and by the reuse branches of _subbuild and _try_to_reuse_cached_file; get_func_version returns None for absent names; version comparison is JsonUtil.is_equal whose contract is the spec jeq (C18 lemmas: 1 == 1.0, True != 1, key order irrelevant).",
+  text="Deductive proof that a function is skipped only if its version is unchanged, for all record trees: the ghost predicate versions_ok (own version JSON-equal and versions_ok of every complex suboperation, least fixpoint) is implied by a True result of _is_build_file_operation_cached / _is_subbuild_operation_cached, by every hit of _build_file_cache_lookup / _subbuild_cache_lookup, by the loop invariant of _are_suboperations_cached, and by the reuse branches of _subbuild and _try_to_reuse_cached_file; get_func_version returns None for absent names; version comparison is JsonUtil.is_equal whose contract is the spec jeq (C18 lemmas: 1 == 1.0, True != 1, key order irrelevant); build_versioned gives the new cache exactly rt(versions) (first-effect guard).",
   note="Assumes records read from the cache file are well-typed (ghost predicate RWF, an assumption on the input) and immutable during the build; persistence of versions through the cache file is the trusted file layer (bounded stand-in cache_forest); 'result equals from-scratch' is C01.",
   ref="DESIGN.md 5 C06"),
  'C08': dict(
-  text="Deductive proof, sequential: _build_file raises RuntimeError with empty effect trace, no callback and no change to any existing object when its path is already claimed or finished in this build (or is the cache file); _subbuild likewise when the subbuild key is taken; claims are single map updates under the documented lock (lockset obligations on Cache); a True result of the replay functions implies the record is not setup-failed and its path is unclaimed; attempts are recorded on the caller's record, closed; subbuild keys are the hashable form of [name, args, kwargs] (key lemma of C18).",
+  text="Deductive proof, sequential: _build_file raises RuntimeError with empty effect trace, no callback and no change to any existing object when its path is already claimed or finished in this build (or is the cache file); _subbuild likewise when the subbuild key is taken; claims are single map updates under the documented lock (lockset obligations on Cache); a True result of the replay functions implies the record is not setup-failed and its path is unclaimed; attempts are recorded on the caller's record, closed; subbuild keys are the hashable form of [name, args, kwargs] (key lemma of C18); a failed attempt is marked setup_failed exactly when no user function was called (only such records are retried by the next build), and leaves no claim in progress.",
   note="Threads: only the atomic-section (lockset) obligations are decided; all-or-nothing registration of a reused subtree (Cache.use_cached_operation) is a trusted contract with the bounded stand-in cache_forest.",
   ref="DESIGN.md 5 C08"),
  'C10': dict(
-  text="Deductive proof over _build_file, _rebuild_file, _prepare_file_creation, _make_dirs, _make_room and build_file_with_comparison, on all paths including OSError from every mutating primitive: normal return implies the record is closed, not raised and registered, the user function was called once with fresh copies of the sanitized arguments; any Exception closes the record and marks it raised (KeyboardInterrupt passes through); a failing _make_dirs has attempted rmdir on every directory it created; the error-created directories returned by _set_created_dirs are exactly BuildDirs' error set.",
+  text="Deductive proof over _build_file, _rebuild_file, _prepare_file_creation, _make_dirs, _make_room and build_file_with_comparison, on all paths including OSError from every mutating primitive: normal return implies the record is closed, not raised and registered, the user function was called once with fresh copies of the sanitized arguments; any Exception closes the record and marks it raised (KeyboardInterrupt passes through); a failing _make_dirs has attempted rmdir on every directory it created; the error-created directories returned by _set_created_dirs are exactly BuildDirs' error set; every Exception exit of _build_file/_rebuild_file gives the reservation of the target back (ghost bd_resv) and the function receives abspath of the given name.",
   note="BuildDirs' reservation bookkeeping (virtual removal of directories on failure) is a trusted contract with a bounded stand-in; 'target absent when the function starts' is proved only as 'moved aside / not a directory'.",
   ref="DESIGN.md 5 C10"),
  'C14': dict(
   text="Deductive proof with fault injection in the model: every mutating primitive (mkdir, rmdir, remove, rename, replace, makedirs, cache write) may raise an OSError subclass without effect on every call; under that model _make_dirs leaves no directory without an rmdir attempt, _build_file/_rebuild_file/_subbuild/_apply_cached_suboperations keep the record invariants on every exceptional exit, _build turns any such Exception into close + roll back + re-raise, _roll_back itself never raises.",
-  note="FileBackups and BuildDirs are trusted contracts (bounded stand-ins); release of reservations on the error paths of _build_file is not expressed (BuildDirs trusted); failures during commit are outside the statement.",
+  note="BuildDirs' reservation machine and scan are trusted contracts (bounded stand-ins); FileBackups is verified except for the freshness of backup paths (stand-in); a failed build_file gives its reservation back and leaves no claim in progress (exc-post of _build_file, scratch ghost bd_resv); failures during commit are outside the statement.",
   ref="DESIGN.md 5 C14"),
  'C04': dict(
   text="Deductive proof that the executor's queries equal the statement's virtual view, written from the statement (VFile: not the cache file; a path passed to build_file in this build is a file iff its function has returned and the file exists; otherwise iff it is not an old output and is a regular file; VDir: a real directory not virtually gone; the replay overlay takes precedence): _is_file_no_read, is_file, is_dir, exists, _assert_exists, _assert_is_dir, read (incl. which OSError subclass), get_size, list_dir (every listed name exists in the view) and _list_dir_superset are verified against it on all paths; _rebuild_file proves that the target is claimed while its function runs and registered (visible, or failed and invisible) on every exit; query methods pass no overlay.",
